@@ -637,6 +637,11 @@ func (v *StrictArray) MarshalBinary() (data []byte, err error) {
 		return nil, oe.Wrap(err, "marshal")
 	}
 
+	// The count on the wire is the number of elements, which may be changed by Set.
+	v.lock.Lock()
+	v.count = uint32(len(v.properties))
+	v.lock.Unlock()
+
 	if err = binary.Write(b, binary.BigEndian, v.count); err != nil {
 		return nil, oe.Wrap(err, "marshal")
 	}
